@@ -23,6 +23,10 @@ CLAIMS = {
             "pure-function PBT: BarFiller.Fill through the public API against an exact math/big oracle plus the monotonicity relation",
             "trusts go-runewidth widths and math/big",
             "property-based testing (rapid): differential against exact rational arithmetic + metamorphic monotonicity"),
+    "C09": ("exploration",
+            "model-based stateful PBT: generated operation sequences on one real bar (three refresh modes, all increment flavours, int64 boundary amounts) compared step by step with a reference counter machine written from the documentation; Statistics handed to decorators compared in render cycles",
+            "the reference model (engine.MBar) is the trusted statement of the documented rules; int64 wrap-around is not generated",
+            "model-based stateful property testing (rapid) against a reference counter machine"),
     "C17": ("exploration",
             "stateful PBT over queue-after histories (successor created before/after the predecessor finished, chains, several successors) with frame-level invariants, an exact position model and a decidable hang/livelock verdict for Wait",
             "hang verdict = all library and client goroutines blocked with identical stacks and no hook event, or the frame bound exceeded; open findings are excluded from the generator and probed by reproducers",
